@@ -214,27 +214,20 @@ theorem makeDb_wf (h : makeDb toTaxa progs = .ok db) (hn : (pathsOf progs).Nodup
     rw [inAt_completeImportations] at hpq hqr ⊢
     exact ⟨hpq.1, Reach.trans hpq.2 hqr.2⟩
 
-/-- **makeDb_ok_iff.** The model (like `TagDatabase.__init__`) returns a database exactly when every
-direct internal import names a collected program; otherwise it raises `KeyError` (which, since fix
-77a08ea, needs a raw `import_internally:` label: `C11_total`, `C11_total_needs_rawLabels`). The closure itself always terminates: it is a total function. -/
-theorem makeDb_ok_iff : (∃ db, makeDb toTaxa progs = .ok db) ↔ Resolved progs := by
-  constructor
-  · rintro ⟨db, h⟩ p q hpq
-    have hp : p ∈ keys (directD progs) := direct_key hpq
-    obtain ⟨himpeq, -, -, -, -⟩ := makeDb_ok h
-    apply C11_importations_internal h p q
-    rw [himpeq, inAt_completeImportations]
-    exact ⟨hp, Reach.single hpq⟩
-  · intro hres
-    have hx : ∀ e ∈ completeImportations (directD progs), ∀ x ∈ e.2, x ∈ pathsOf progs := by
-      intro e he x hx
-      simp only [completeImportations, List.mem_map] at he
-      obtain ⟨f, -, rfl⟩ := he
-      rw [mem_sortU, mem_closureOf] at hx
-      obtain ⟨b, -, hb⟩ := reach_last hx
-      exact hres b x hb
-    obtain ⟨exps, he⟩ := exportations_ok hx
-    exact makeDb_isOk_of he
+/-- **C11 (collecting always returns).** For EVERY collection — any labels (hint-introduced
+`import_internally:…` labels included), any file and directory names, any import graph — the model
+(like `TagDatabase.__init__`) returns a database: the closure is a total function and, since fix
+0c1b93c, `compute_and_collect_exportations` only meets collected paths (no `KeyError`). -/
+theorem C11_total : ∃ db, makeDb toTaxa progs = .ok db := by
+  have hx : ∀ e ∈ completeImportations (directD progs), ∀ x ∈ e.2, x ∈ pathsOf progs := by
+    intro e he x hx
+    simp only [completeImportations, List.mem_map] at he
+    obtain ⟨f, -, rfl⟩ := he
+    rw [mem_sortU, mem_closureOf] at hx
+    obtain ⟨b, -, hb⟩ := reach_last hx
+    exact resolved_all progs b x hb
+  obtain ⟨exps, he⟩ := exportations_ok hx
+  exact makeDb_isOk_of he
 
 /-! ### SQLite rows -/
 
@@ -287,14 +280,7 @@ theorem C11_sqlite_rows (db : Db) :
     obtain ⟨e, -, l, -, s, -, rfl⟩ := hr
     rfl
 
-/-! ### Totality (after fix 77a08ea) -/
-
-/-- **C11 (collecting always returns).** For every collection whose raw labels are parser labels
-(none already has the `import_internally:` form — spec.md has no such feature), every direct internal
-import names a collected path, hence the model (like `TagDatabase.__init__`) returns a database:
-no `KeyError`, whatever the file and directory names (dots included) and the import graph. -/
-theorem C11_total (hraw : RawLabels progs) : ∃ db, makeDb toTaxa progs = .ok db :=
-  makeDb_ok_iff.mpr (resolved_of_rawLabels hraw)
+/-! ### Examples -/
 
 def exA : Name := [97, 46, 112, 121]          -- "a.py"
 def exB : Name := [98, 46, 112, 121]          -- "b.py"
@@ -313,26 +299,16 @@ def dottedProgs : List Prog :=
 
 theorem dotted_ok : directD dottedProgs = [(exAB, []), (exC, [])] ∧
     ∃ db, makeDb toTaxa dottedProgs = .ok db :=
-  ⟨by decide, C11_total (by decide)⟩
+  ⟨by decide, C11_total⟩
 
-/-- Why `RawLabels` is a hypothesis: a raw label `import_internally:z` (only a hint comment
-`# paroxython: import_internally:z` can produce one; hints are outside C11's quantifier) names `z.py`
-without any membership test, and `compute_and_collect_exportations` raises `KeyError` — observed on
-the real code too. -/
+/-- The input of the repaired finding F29: a raw label `import_internally:z` (what the hint comment
+`# paroxython: import_internally:z` produces) naming a program that is not collected is no longer an
+importation, and a database is returned. -/
 def hintProgs : List Prog :=
   [{ path := exA, timestamp := [], source := [], labels := [{ name := intZ, spans := [] }] }]
 
-theorem C11_total_needs_rawLabels : ¬ ∃ db, makeDb toTaxa hintProgs = .ok db := by
-  intro h
-  have hres := makeDb_ok_iff.mp h
-  have hd : directD hintProgs = [(exA, [[122, 46, 112, 121]])] := by decide
-  have himp : Imports hintProgs exA [122, 46, 112, 121] := by
-    unfold Imports Direct
-    rw [hd]
-    decide
-  have := hres exA _ himp
-  revert this
-  decide
+theorem hint_ok : directD hintProgs = [(exA, [])] ∧ ∃ db, makeDb toTaxa hintProgs = .ok db :=
+  ⟨by decide, C11_total⟩
 
 /-- Non-vacuity: a two-program import cycle (`a.py`: `import b`, `b.py`: `import a`). -/
 def cycleProgs : List Prog :=
@@ -341,13 +317,13 @@ def cycleProgs : List Prog :=
 
 theorem cycle_directD : directD cycleProgs = [(exA, [exB]), (exB, [exA])] := by decide
 
-example : RawLabels cycleProgs ∧ (pathsOf cycleProgs).Nodup ∧
+example : (pathsOf cycleProgs).Nodup ∧
     Relation.TransGen (Imports cycleProgs) exA exA := by
   have hab : Imports cycleProgs exA exB := by
     unfold Imports Direct; rw [cycle_directD]; decide
   have hba : Imports cycleProgs exB exA := by
     unfold Imports Direct; rw [cycle_directD]; decide
-  exact ⟨by decide, by decide, Relation.TransGen.tail (Relation.TransGen.single hab) hba⟩
+  exact ⟨by decide, Relation.TransGen.tail (Relation.TransGen.single hab) hba⟩
 
 /-! ### Bridge to the filter properties (C04–C07) -/
 
@@ -465,7 +441,7 @@ with one span, yields a database to which the filter theorems apply. -/
 example : ∃ db, makeDb (fun _ _ => [{ name := [120], spans := [(1, 1, [])] }]) cycleProgs = .ok db ∧
     Paroxy.Filter.DB.WF (toFilterDB db) := by
   obtain ⟨db, h⟩ := C11_total (toTaxa := fun _ _ => [{ name := [120], spans := [(1, 1, [])] }])
-    (progs := cycleProgs) (by decide)
+    (progs := cycleProgs)
   refine ⟨db, h, makeDb_filter_wf h (by decide) ?_⟩
   intro p _ t ht
   simp only [List.mem_singleton] at ht
